@@ -1063,8 +1063,9 @@ Qed.
 Definition leaf_fresh (t : target) (now : Z) (k : string) (val : tv) : Prop :=
   forall old, lookup (t_tree t) [md_root; k] = Some old ->
     n_ts old <= now /\
-    exists uo rest, n_upd old = uo :: rest /\
-      otv_eqb (u_val uo) (Some val) = false /\ value_equal (u_val uo) (Some val) = false.
+    (n_upd old = [] \/
+     exists uo rest, n_upd old = uo :: rest /\
+       otv_eqb (u_val uo) (Some val) = false /\ value_equal (u_val uo) (Some val) = false).
 
 Lemma update_leaf_meta t1 now k val t2 r :
   let u := Upd (Some (gp_of_names [md_root; k])) (Some val) 0 in
@@ -1075,18 +1076,22 @@ Proof.
   intros u Hfresh. unfold update_leaf. cbv zeta.
   assert (Hreal : is_real [md_root; k] = false) by reflexivity. rewrite Hreal.
   destruct (CTreeModel.get (t_tree t1) [md_root; k]) as [[old|cs]|] eqn:Hg.
-  - destruct (Hfresh old (get_leaf_lookup' _ _ _ Hg)) as (Hts & uo & rest & Hu & Ho & Hv).
+  - destruct (Hfresh old (get_leaf_lookup' _ _ _ Hg)) as (Hts & Hcase).
     assert (Hverd : leaf_verdict t1 now old (meta_noti (t_name t1) now k val) = None).
     { unfold leaf_verdict. cbn [n_ts meta_noti].
       destruct (Z.ltb_spec now (n_ts old)); [lia|].
       assert (Hne : notif_eqb old (meta_noti (t_name t1) now k val) = false).
-      { unfold notif_eqb. cbn [n_upd meta_noti]. rewrite Hu. cbn [list_eqb]. unfold update_eqb.
-        cbn [u_val]. rewrite Ho. now rewrite ?andb_false_r. }
+      { unfold notif_eqb. cbn [n_upd meta_noti].
+        destruct Hcase as [Hu|(uo & rest & Hu & Ho & Hv)]; rewrite Hu; cbn [list_eqb].
+        - now rewrite ?andb_false_r.
+        - unfold update_eqb. cbn [u_val]. rewrite Ho. now rewrite ?andb_false_r. }
       rewrite Hne, andb_false_r. rewrite future_rejected_now, andb_false_r. reflexivity. }
-    rewrite Hverd. cbn [n_atomic meta_noti]. rewrite Hu. cbn [u_val].
-    fold u. cbn [u_val u]. rewrite Hv. rewrite andb_false_r. cbn [andb].
-    unfold lat_compute. rewrite andb_false_r.
-    intros H; inversion H; subst. repeat split.
+    rewrite Hverd. cbn [n_atomic meta_noti].
+    destruct Hcase as [Hu|(uo & rest & Hu & Ho & Hv)]; rewrite Hu.
+    + intros H; inversion H; subst. repeat split.
+    + cbn [u_val]. fold u. cbn [u_val u]. rewrite Hv. rewrite andb_false_r. cbn [andb].
+      unfold lat_compute. rewrite andb_false_r.
+      intros H; inversion H; subst. repeat split.
   - intros H; inversion H; subst. repeat split.
   - destruct (CTreeModel.add (t_tree t1) [md_root; k] (meta_noti (t_name t1) now k val));
       intros H; inversion H; subst; repeat split.
@@ -1295,16 +1300,19 @@ Proof.
     + intros Heq; inversion Heq; contradiction.
 Qed.
 
-(** meta_differs = Ok true: the stored leaf holds a value [same] rejects *)
+(** meta_differs = Ok true: the stored leaf holds no update, no value, or a
+    value [same] does not accept *)
 Lemma meta_differs_true t k same :
   meta_differs t k same = Ok true ->
   forall old, lookup (t_tree t) [md_root; k] = Some old ->
-    exists uo rest v, n_upd old = uo :: rest /\ u_val uo = Some v /\ same v = Some false.
+    n_upd old = [] \/
+    exists uo rest, n_upd old = uo :: rest /\
+      (u_val uo = None \/ exists v, u_val uo = Some v /\ (same v = None \/ same v = Some false)).
 Proof.
   unfold meta_differs. intros H old Hl. rewrite Hl in H.
-  destruct (n_upd old) as [|uo rest]; [discriminate|].
-  destruct (u_val uo) as [v|] eqn:Ev; [|discriminate].
-  destruct (same v) as [[|]|] eqn:Es; try discriminate. exists uo, rest, v. auto.
+  destruct (n_upd old) as [|uo rest]; [now left|]. right. exists uo, rest. split; [reflexivity|].
+  destruct (u_val uo) as [v|] eqn:Ev; [|now left]. right. exists v. split; [reflexivity|].
+  destruct (same v) as [[|]|] eqn:Es; try discriminate; auto.
 Qed.
 
 Lemma refresh_loops name m0 ts0 now t :
@@ -1321,10 +1329,12 @@ Proof.
     - destruct (md_get_str (t_meta t1) k) as [s|] eqn:Eg; [|discriminate].
       inversion Hv; subst. exact Eg.
     - intros old Hl. split; [destruct Hq as (_ & _ & _ & _ & Hc); eapply Hc; eauto|].
-      destruct (meta_differs_true _ _ _ Hd old Hl) as (uo & rest & v & Hu & Hvv & Hs).
-      exists uo, rest. split; [exact Hu|]. rewrite Hvv.
       destruct (md_get_str (t_meta t1) k) as [s|] eqn:Eg; [|discriminate]. inversion Hv; subst.
-      destruct v; try discriminate. cbn in Hs. inversion Hs as [Hs']. cbn. rewrite Hs'. auto. }
+      destruct (meta_differs_true _ _ _ Hd old Hl) as [Hn|(uo & rest & Hu & Hcase)]; [now left|].
+      right. exists uo, rest. split; [exact Hu|].
+      destruct Hcase as [Hnone|(v & Hvv & Hs)]; [rewrite Hnone; auto|]. rewrite Hvv.
+      destruct v; cbn in Hs |- *; destruct Hs as [Hs|Hs]; try discriminate; auto;
+        inversion Hs as [Hs']; rewrite Hs'; auto. }
   apply fold_gst_ok.
   { intros st k _ Hst. apply gen_meta_one_inv; [|exact Hst].
     intros val t' r t0 Hq Hv Hd E. destruct st as [[t1 fd] po]. subst t0. cbn [fst] in *.
@@ -1332,10 +1342,12 @@ Proof.
     - destruct (md_get_int (t_meta t1) k) as [z|] eqn:Eg; [|discriminate].
       inversion Hv; subst. exact Eg.
     - intros old Hl. split; [destruct Hq as (_ & _ & _ & _ & Hc); eapply Hc; eauto|].
-      destruct (meta_differs_true _ _ _ Hd old Hl) as (uo & rest & v & Hu & Hvv & Hs).
-      exists uo, rest. split; [exact Hu|]. rewrite Hvv.
       destruct (md_get_int (t_meta t1) k) as [z|] eqn:Eg; [|discriminate]. inversion Hv; subst.
-      destruct v; try discriminate. cbn in Hs. inversion Hs as [Hs']. cbn. rewrite Hs'. auto. }
+      destruct (meta_differs_true _ _ _ Hd old Hl) as [Hn|(uo & rest & Hu & Hcase)]; [now left|].
+      right. exists uo, rest. split; [exact Hu|].
+      destruct Hcase as [Hnone|(v & Hvv & Hs)]; [rewrite Hnone; auto|]. rewrite Hvv.
+      destruct v; cbn in Hs |- *; destruct Hs as [Hs|Hs]; try discriminate; auto;
+        inversion Hs as [Hs']; rewrite Hs'; auto. }
   apply fold_gst_ok.
   { intros st k _ Hst. apply gen_meta_one_inv; [|exact Hst].
     intros val t' r t0 Hq Hv Hd E. destruct st as [[t1 fd] po]. subst t0. cbn [fst] in *.
@@ -1343,10 +1355,12 @@ Proof.
     - destruct (md_get_bool (t_meta t1) k) as [b|] eqn:Eg; [|discriminate].
       inversion Hv; subst. exact Eg.
     - intros old Hl. split; [destruct Hq as (_ & _ & _ & _ & Hc); eapply Hc; eauto|].
-      destruct (meta_differs_true _ _ _ Hd old Hl) as (uo & rest & v & Hu & Hvv & Hs).
-      exists uo, rest. split; [exact Hu|]. rewrite Hvv.
       destruct (md_get_bool (t_meta t1) k) as [b|] eqn:Eg; [|discriminate]. inversion Hv; subst.
-      destruct v; try discriminate. cbn in Hs. inversion Hs as [Hs']. cbn. rewrite Hs'. auto. }
+      destruct (meta_differs_true _ _ _ Hd old Hl) as [Hn|(uo & rest & Hu & Hcase)]; [now left|].
+      right. exists uo, rest. split; [exact Hu|].
+      destruct Hcase as [Hnone|(v & Hvv & Hs)]; [rewrite Hnone; auto|]. rewrite Hvv.
+      destruct v; cbn in Hs |- *; destruct Hs as [Hs|Hs]; try discriminate; auto;
+        inversion Hs as [Hs']; rewrite Hs'; auto. }
   split; [exact Hinv|constructor].
 Qed.
 
